@@ -34,7 +34,7 @@ ASSUMPTIONS = ["commands queued during the outage may legitimately precede the r
 REQUIRED_OBS = ["reconnects_judged", "refresh_requests_at_open", "converged_after_change",
                 "unchanged_refresh_silent", "poll_requests_predicted_and_seen",
                 "poll_restarted_by_status", "poll_after_reconnection", "flapping_reconnections",
-                "refused_attempts_before_reconnection"]
+                "refused_attempts_before_reconnection", "initialised_after_init_gave_up"]
 SOAK = True   # also judged by the whole-run monitors of the soak sessions (vf/soak.py)
 BUDGET = {"quick": 100, "thorough": 1500}
 
@@ -89,6 +89,12 @@ def cases(tier, seed):
             losses = losses[:1]
         yield {"k": "poll", "gen": 4, "gaps": gaps, "answer": rnd.random() < 0.5,
                "horizon": 2500.0, "seed": rnd.randrange(1 << 30), "losses": losses}
+    for late in (1.0, 0.875):
+        for answer in (False, True):
+            yield {"k": "poll", "gen": 4, "gaps": [], "answer": answer, "horizon": 1000.0,
+                   "seed": 3, "late_init": late}
+            yield {"k": "poll", "gen": 4, "gaps": [150.0, 300.5], "answer": answer,
+                   "horizon": 1300.0, "seed": 4, "late_init": late}
     yield {"k": "poll", "gen": 4, "gaps": [], "answer": False, "horizon": 1600.0, "seed": 1}
     yield {"k": "poll", "gen": 4, "gaps": [], "answer": True, "horizon": 1600.0, "seed": 2}
 
@@ -314,7 +320,20 @@ def run_poll(case):
     async def main(loop, net, log):
         knobs = C.Knobs(broadcast=False)
         w = AW.ModelWorld(4, loop, net, log, C.default_installation(4, 1, (3,)), knobs)
-        if await w.init_and_sync() is not True:
+        if case.get("late_init"):
+            # a slow console: init() gives up after 5 s (False), the handshake completes in the
+            # background 6 x late_init after the call; the silence clock starts with the group
+            # status of the handshake
+            knobs.latency = case["late_init"]
+            t_call = loop.time()
+            r = await w.init()
+            await asyncio.sleep(t_call + 6 * case["late_init"] - loop.time())
+            await quiesce(loop)
+            knobs.latency = 0.0
+            if r is not False or not w.at.initialised:
+                return
+            obs["initialised_after_init_gave_up"] = 1
+        elif await w.init_and_sync() is not True:
             return
         if not case["answer"]:
             knobs.silent_kinds.add("zone_status_request")
